@@ -194,6 +194,17 @@ fn parse_pattern(s: &str) -> Pattern {
 }
 
 fn decide(rec: &mut Recorder, plan_case: &HybridCase, expected: &[u128], fault: &Fault, len: usize, idx: usize) {
+    // Row-count words (shuffle cardinality, number of fake records): the receiver allocates that many rows, and a huge
+    // value aborts the process on allocation failure, which cannot be observed in-process. Only small changes there.
+    let fam0 = wl::step_family(&fault.key.gate);
+    let small = fam0.contains("cardinality") || fam0.contains("send_num_fake_records");
+    let patched;
+    let fault = if small && !matches!(fault.pattern, Pattern::FlipBit { byte: 0, bit: 0..=3 }) {
+        patched = Fault { key: fault.key.clone(), chunk_no: fault.chunk_no, pattern: Pattern::FlipBit { byte: 0, bit: (idx % 3) as u8 } };
+        &patched
+    } else {
+        fault
+    };
     let c = fault.key.src as usize;
     let (run, st) = run_tapped(plan_case, Some(fault.clone()));
     let fam = wl::step_family(&fault.key.gate);
